@@ -97,6 +97,22 @@ def run(pid, cfg, tier, seed, workdir, already_broken):
     for sp in _scen_paths(cfg.get("scenarios", [])):
         deep = any(os.path.basename(sp).startswith(x + "_") for x in cfg.get("deep", [])) or tier == "thorough"
         results += sweep.sweep(sp, os.path.join(workdir, "sweep"), maxp=maxp, two_level=True, three_level=deep)
+    # operations from thread-local destructors after arc-swap's own TLS is gone (not modelled: a test on the crate)
+    late_findings = []
+    if cfg.get("late"):
+        ok, out = buildlib.harness_build("late")
+        exe = os.path.join(ROOT, "harness/target/debug/late")
+        for args in (["20", "3"], ["60", "8"]) if tier == "quick" else (["20", "3"], ["60", "8"], ["400", "16"]):
+            try:
+                p = subprocess.run([exe] + args, stdout=subprocess.PIPE, stderr=subprocess.STDOUT, timeout=300)
+                rc, txt = p.returncode, p.stdout.decode(errors="replace")[-1500:]
+            except (subprocess.TimeoutExpired, OSError) as ex:
+                rc, txt = -9, repr(ex)
+            if rc != 0 or "LATE-OK" not in txt:
+                late_findings.append({"message": "operations executed from a thread-local destructor after arc-swap's own thread-local was destroyed failed (harness/late %s: exit %s): %s" % (" ".join(args), rc, txt.strip()[-400:]),
+                                      "cls": None,
+                                      "replay": {"program": "cd /verif/harness && cargo build --offline -p late && target/debug/late %s" % " ".join(args),
+                                                 "schedule": [], "policy": "os-threads", "impl_trace": txt.splitlines()[-40:], "model_trace": []}})
     # adversary for wait-freedom: a writer completes a store between the reader's read and its confirmation, every round
     for (scen, rd, wr) in cfg.get("chase", []):
         for sp in _scen_paths([scen]):
@@ -148,7 +164,7 @@ def run(pid, cfg, tier, seed, workdir, already_broken):
         search_summary += "; intensified search: %d more runs in %.0fs, %s" % (len(extra), time.time() - t1, "failing input found" if mine else "no failing input found")
     # one finding per class (unknown class = each distinct message counts)
     seen_cls = set()
-    findings = []
+    findings = list(late_findings)
     for f, r in mine:
         key = f[3] or ("msg:" + f[1][:60])
         if key in seen_cls:
